@@ -101,9 +101,94 @@ fn c13_mode(thorough: bool) {
     println!("{}", v);
 }
 
+/// C05 under the rayon feature ("for all thread counts"): every destination kind, under two
+/// different previous contents, must come out exactly as from a pool of one — the whole parent
+/// buffer is compared, so band code that writes outside a cropped view or leaves part of the view
+/// stale is visible — and the view itself must not depend on the previous content.
+fn c05_mode(thorough: bool) {
+    let t0 = std::time::Instant::now();
+    let ns: Vec<usize> = if thorough { vec![2, 3, 4, 5, 7, 8, 16, 32] } else { vec![2, 3, 4, 7] };
+    let hs: Vec<u32> = if thorough { vec![1, 2, 5, 31, 32, 33, 47, 64, 100, 257] } else { vec![1, 5, 33, 48, 64] };
+    let ws: Vec<u32> = if thorough { vec![1, 3, 16, 33, 64, 100] } else { vec![1, 3, 33, 64] };
+    let simd = if CpuExtensions::Avx2.is_supported() { 2 } else { 0 };
+    let one = rayon::ThreadPoolBuilder::new().num_threads(1).build().expect("pool");
+    let pools: Vec<(usize, rayon::ThreadPool)> = ns.iter().map(|&n| (n, rayon::ThreadPoolBuilder::new().num_threads(n).build().expect("pool"))).collect();
+    let mut ctx = Ctx::new("destinations under real rayon");
+    let mut cases = 0u64;
+    for &dh in hs.iter() {
+        for &dw in ws.iter() {
+            for &body in BODIES.iter() {
+                for &pt in PTS.iter() {
+                    for be in [0, simd] {
+                        let c = Case { body, pt, be, dw, dh };
+                        if !applicable(&c) || (be == simd && simd == 0) {
+                            continue;
+                        }
+                        cases += 1;
+                        ctx.idx = cases;
+                        let kinds = [DstKind::Typed, DstKind::Tracked(Track::Off, false), DstKind::CroppedTyped, DstKind::CroppedTracked(Track::Off, false)];
+                        for (ki, kind) in kinds.iter().enumerate() {
+                            let mut views: Vec<Vec<u8>> = vec![];
+                            for sentinel in [0x5Au8, 0xA5] {
+                                let Ok(exp) = guarded(|| one.install(|| run_body_pt(&c, &kind.reference(), sentinel, None))) else { continue };
+                                for (n, pool) in pools.iter() {
+                                    let r = guarded(|| pool.install(|| run_body_pt(&c, kind, sentinel, None)));
+                                    ctx.ops += 1;
+                                    ctx.traces += 1;
+                                    let det = |extra: serde_json::Value| json!({"body": format!("{:?}", body), "pixel": format!("{:?}", pt), "backend": be, "dst": [dw, dh], "src": format!("{:?}", src_size(&c)), "destination_kind": ki, "cropped_placement": format!("{:?}", CROP_PLACE), "sentinel": sentinel, "pool_size": n, "more": extra});
+                                    match r {
+                                        Err((loc, msg)) => ctx.violation(format!("C05|rayon|panic|{}|{}", loc, panic_class(&msg)), || det(json!({"message": msg}))),
+                                        Ok(out) => {
+                                            if out != exp {
+                                                let i = out.iter().zip(exp.iter()).position(|(a, b)| a != b).unwrap_or(0);
+                                                let px = i / psize(pt);
+                                                let pw = if kind.is_cropped() { dw + CROP_PLACE.0 + CROP_PLACE.2 } else { dw } as usize;
+                                                let (x, y) = ((px % pw) as u32, (px / pw) as u32);
+                                                let inside = !kind.is_cropped() || (x >= CROP_PLACE.0 && x < CROP_PLACE.0 + dw && y >= CROP_PLACE.1 && y < CROP_PLACE.1 + dh);
+                                                ctx.violation(format!("C05|rayon|{:?}|{:?}|{}", body, pt, if inside { "destination pixels differ from the single-threaded result (stale or misplaced)" } else { "bytes outside the destination view changed" }), || det(json!({"first_differing_byte": i, "parent_pixel": [x, y]})));
+                                            }
+                                            if *n == ns[0] {
+                                                views.push(out.clone());
+                                            }
+                                            ctx.outcome(fnv1(&out));
+                                        }
+                                    }
+                                }
+                            }
+                            // the view must not depend on the previous content (plain kinds: whole buffer)
+                            if !kind.is_cropped() && views.len() == 2 && views[0] != views[1] && body != Body::DivAlphaInplace {
+                                ctx.violation(format!("C05|rayon|{:?}|{:?}|result depends on what the destination held before", body, pt), || json!({"dst": [dw, dh], "backend": be, "destination_kind": ki}));
+                            }
+                        }
+                        ctx.class(((body as u64) << 8) | ((pt as u64) << 4) | be as u64);
+                        ctx.nontrivial += 1;
+                        if cases == 1 || cases % 53 == 0 {
+                            ctx.samples.push(json!({"rayon_destination_case": {"body": format!("{:?}", body), "pixel": format!("{:?}", pt), "backend": be, "dst": [dw, dh], "pool_sizes": ns, "destination_kinds": 4, "sentinels": 2}}));
+                        }
+                    }
+                }
+            }
+        }
+    }
+    ctx.samples.truncate(3);
+    let mut rep = Report::default();
+    rep.absorb_ctx(ctx);
+    rep.cases = cases;
+    rep.planned = cases;
+    rep.spaces.push(json!({"space": "rayon leg: bodies x types x back-ends x shapes x 4 destination kinds (plain, trait-default view, cropped views of both) x 2 previous contents x pool sizes, whole parent buffer against the pool of one", "cases": cases, "pool_sizes": ns, "wall_s": t0.elapsed().as_secs_f64()}));
+    eprintln!("[C05 rayon leg] cases {} runs {} violations {} {:.1}s", cases, rep.ops, rep.sig_counts.len(), t0.elapsed().as_secs_f64());
+    let mut v = report_to_json(&rep);
+    v["planned"] = json!(rep.planned);
+    v["spaces"] = json!(rep.spaces);
+    println!("{}", v);
+}
+
 fn main() {
     let args: Vec<String> = std::env::args().collect();
     install_quiet_panic_hook();
+    if args.get(1).map(|s| s == "c05").unwrap_or(false) {
+        return c05_mode(args.get(2).map(|s| s == "thorough").unwrap_or(false));
+    }
     if args.get(1).map(|s| s == "c13").unwrap_or(false) {
         return c13_mode(args.get(2).map(|s| s == "thorough").unwrap_or(false));
     }
